@@ -765,14 +765,22 @@ class ModeSense(Format):
         nbd = 0
         pmode = "rand"
         key = None
+        npages = 1
         if isinstance(mode, tuple) and mode[0] == "page":
             key, pmode, nbd = mode[1], mode[2], mode[3]
+        elif isinstance(mode, tuple) and mode[0] == "pages":
+            npages, nbd = mode[1], mode[2]
         elif mode == "rand":
             nbd = rng.choice([0, 0, 1, 2])
+            npages = rng.choice([1, 1, 1, 2, 3, 4])
         if self.ten and nbd and rng.getrandbits(1):
             v["longlba"] = 1
         v["_block_descriptors"] = [gen.byte_string(rng, 16 if v.get("longlba") else 8) for _ in range(nbd)]
-        v["mode_pages"] = [gen_mode_page(rng, key, pmode)]
+        if npages == 1:
+            v["mode_pages"] = [gen_mode_page(rng, key, pmode)]
+        else:
+            # what a device answers to page code 3Fh (return all pages): several pages, one after the other
+            v["mode_pages"] = [gen_mode_page(rng, k, "rand") for k in rng.sample(list(MODE_PAGES), npages)]
         return v
 
     def encode(self, v):
@@ -803,6 +811,10 @@ class ModeSense(Format):
                         yield ("page", key, ("walk", name, val, fill), 0)
             for nbd in (0, 1, 2):
                 yield ("page", key, "rand", nbd)
+        for npages in (0, 2, 3, 4):
+            for nbd in (0, 1):
+                for _ in range(2 if small else 25):
+                    yield ("pages", npages, nbd)
 
 
 # -- READ CAPACITY ------------------------------------------------------------
@@ -1344,6 +1356,8 @@ def _facade_map():
 
     def ms(method):
         def g(v, n):
+            if len(v["mode_pages"]) != 1:
+                return (method, {"page_code": 0x3F, "sub_page_code": 0, "alloclen": n})  # return all pages
             p = v["mode_pages"][0]
             return (method, {"page_code": p["page_code"], "sub_page_code": p.get("sub_page_code", 0), "alloclen": n})
         return g
